@@ -350,6 +350,39 @@ func checkC01(c *Ctx) {
 			c01Carried(c, f.Path, f.Src)
 		}
 	}
+	// template fragments with a comment behind every (second) token, brought into canonical form by gofmt:
+	// canonical files with comments at places nobody writes them
+	if tsrc, err := templateSrc(); err == nil {
+		if ms, err := miniFiles(tsrc); err == nil {
+			type dj struct {
+				key string
+				src []byte
+			}
+			var djs []dj
+			for mi, m := range ms {
+				var buf bytes.Buffer
+				if decorator.Fprint(&buf, m) != nil {
+					continue
+				}
+				for _, v := range [][2]int{{0, 1}, {0, 2}, {1, 2}} {
+					if g, err := format.Source(numberedComments(buf.Bytes(), v[0], v[1])); err == nil && isCanonical(g) {
+						djs = append(djs, dj{fmt.Sprintf("template-fragment-%d|canonical comment-every-%d-from-%d", mi, v[1], v[0]), g})
+					}
+				}
+			}
+			parallel(len(djs), func(i int) {
+				c.Eval(djs[i].key, true)
+				for _, e := range entryPoints("x.go", djs[i].src, false) {
+					if e.Err != "" {
+						c.Fail(Finding{Sig: "roundtrip-fails", Input: djs[i].key, What: e.Entry + ": " + e.Err + "\n" + string(djs[i].src), Replay: obj{"kind": "c01snip", "src": string(djs[i].src)}})
+					} else if !bytes.Equal(e.Out, djs[i].src) {
+						c.Fail(Finding{Sig: "roundtrip-bytes-differ", Input: djs[i].key, What: e.Entry + ": " + diffAt(djs[i].src, e.Out), Replay: obj{"kind": "c01snip", "src": string(djs[i].src)}})
+					}
+				}
+			})
+			c.Set("canonical_dense_comment_fragments", len(djs))
+		}
+	}
 	// ... also with a comment behind every token of every template fragment
 	if tsrc, err := templateSrc(); err == nil {
 		if ms, err := miniFiles(tsrc); err == nil {
